@@ -1,19 +1,113 @@
-# C12 -- SIMD evaluation equals scalar evaluation (index enumeration + loop partition only)
-META = dict(level='proof', level_text='wip', level_note='wip', trusted_base=[], assumptions=[], explanation='wip', not_covered=[])
+# C12 -- SIMD evaluation equals scalar evaluation (index enumeration + packed-loop / tail partition only)
+META = dict(
+    level='proof',
+    level_text='Only the index enumeration and the loop partition of the SIMD evaluators are covered, on the real instantiated code, for '
+               'N_ELEM_PACK = 4 and 8: binary_2d_simd_shape / binary_2d_simd_enumerator_t::{size, operator[]}, reduction_2d_shape / '
+               'reduction_2d_enumerator_t::operator[] (HORIZONTAL and VERTICAL), reduction_nd_reshape (run-time rank 1..8, loops closed by loop '
+               'contracts), outer_simd_shape / outer_simd_enumerator_t::operator[] (1-d x 1-d), matmul_simd_inner (thorough tier) are proved '
+               'against a spec of "which lanes of which buffer does item i touch": tag, offset = row base + column, lanes inside the row, items '
+               'adjacent and ending exactly at the row end (exact cover, with the spec inverse item_of/lane_of proved two-sided for all 64-bit row '
+               'lengths). The real evaluator_t<view, simd_base_t<tag>>::eval_unary (packed loop `(i+N)<=size` + tail from `(size/N)*N`) is proved, '
+               'with both loops closed by loop contracts, to produce op(in[k]) at every k < size and to write nothing else, over abstract operands '
+               '(n <= 32 elements; a pack = N checked element accesses; op(x) = -x). Intrinsics, float lane semantics and reduction '
+               're-association are NOT covered.',
+    level_note='Products/quotients of two symbolic extents (row * cols, i / simd_cols) are uninterpreted with sound axioms in the .uf units; arithmetic '
+               'with the constant pack width is bit-precise everywhere. The flat statements (offset + lanes <= rows*cols, item index <-> (row, column) '
+               'bijection, packed/tail partition over the naturals) follow from the per-row facts by the Lean lemmas in lemmas/c12_rows.lean. The '
+               'evaluators other than eval_unary (eval_binary, eval_outer, eval_reduction) are covered only through the enumerators they iterate over, '
+               'not as loops; their glue (tag dispatch, pointer arithmetic on real buffers) is trusted.',
+    trusted_base=[
+        'clang 14 front end (AST of the instantiated templates)', 'engine/cxx2c.py (C++ AST -> C rendering, incl. switch statements and enum tags as int)',
+        'cbmc 6.11.0 / goto-instrument --dfcc (contract instrumentation, SAT back end)', 'C models of std::array / std::tuple (generated prelude)',
+        'Lean 4.33 kernel (lemmas/c12_rows.lean, core library only) and the reading of `row*cols + col` / `(s/N)*N` as natural-number expressions '
+        '(extents below 2^62, so nothing wraps)',
+        'abstract operands of eval_unary defined in inst/c12e.cpp (verif_arr / verif_view / verif_tag<128|256>: nmtools::shape, nmtools::data, apply_at, '
+        'ufunc_simd_t::{loadu, eval, storeu} as N element-wise checked accesses)',
+    ],
+    assumptions=[
+        'mode uf (this property): unsigned long * / % of two SYMBOLIC operands are uninterpreted functions with the axioms of models/prelude.h plus '
+        '`a >= b ==> a / b >= 1` (spec/c12.h c12_uf_div); operations with a literal operand (the pack width) keep the machine operator',
+        'ghost cells SR, SC, RB, ORB, LB, RBM, PRE[], SUF[], EXPV[], OLDV[] are functional definitions assumed in the preconditions',
+        'enumerator[i] is called with i < size(), stated as i / simd_cols < rows (equivalent for simd_cols >= 1: lemma item_lt_size_iff)',
+        'binary_2d: the three shapes are related by NumPy broadcasting of two 2-d shapes (what eval_binary establishes before it builds the enumerator); '
+        'extents >= 1 and <= 2^62',
+        'reduction VERTICAL: out rows divide into in rows (Ri >= Ro >= 1), same column count',
+        'eval_unary: n <= 32 elements, finite or infinite but non-NaN floats (exact float equality), configuration -DNDEBUG, STL enabled',
+        'known finding region (operand of shape (1,1), item below the first simd row) is excluded from the proved binary_2d contract after its witness '
+        'is replayed on the real code',
+    ],
+    explanation='ENUMERATORS. For item i = (row SR, column SC) of the simd grid, proved on the real code: binary 2-d - out (PACKED, SR*C + SC*N) for SC < C/N else '
+                '(SCALAR, SR*C + (C/N)*N + SC - C/N); each operand is addressed at source row (rows==1 ? 0 : SR) and source column (cols==1 ? 0 : col): PACKED needs '
+                'operand cols == C and col + N <= cols, BROADCAST/SCALAR read one element; horizontal reduction - input (PACKED | PAD_k, SR*n + SC*N) with k = N - n%N '
+                'padded lanes, N-k valid lanes ending exactly at the row end, ACCUMULATE into out[SR] exactly at the last item of the row, NOP before; vertical reduction - '
+                'input row SR accumulates (ACCUMULATE_PACKED | ACCUMULATE) into output row SR / (Ri/Ro) at the same column, packed x n/N then scalar x n%N; outer - out '
+                '(PACKED | PAD_k) at SR*B + SC*N, lhs BROADCAST at SR, rhs same tag at SC*N; nd reshape - (prod shape[0..axis], prod shape[axis+1..]) resp. '
+                '(prod shape[0..dim-2], shape[dim-1]). EXACT COVER: per row the items are adjacent, start at column 0 and the last ends at the row end (in the post-conditions '
+                'for PAD rows; lemma.row_cover_N for packed+scalar rows, including the inverse item_of/lane_of: every column is covered by exactly one item and lane, for all '
+                '64-bit row lengths); rows x columns <-> item index is the mixed-radix bijection (Lean item_roundtrip / MixedRadix L1). Hence every output element is written '
+                'by exactly one (item, lane) and every access lies inside its buffer (Lean flat_in_bounds). PARTITION. eval_unary (real code, N = 4 and 8): after the packed '
+                'loop and the tail, out[k] = op(in[k]) for all k < size, out[k] untouched for k >= size, size field untouched, refused (false, output untouched) when shapes '
+                'differ; every lane access is bounds/pointer-checked. The partition arithmetic over the naturals (every k < s lies either in exactly one N-block passing '
+                '`i+N <= s` or in the tail [ (s/N)*N, s )) is Lean lemma partition. KNOWN FINDING: an operand of shape (1,1) broadcast against >= 2 output rows is addressed by '
+                'the row index (binary_2d_simd, index/ufunc.hpp:73-89) -> out-of-bounds read, confirmed end to end with the simd::vector_128 context (ASan heap-buffer-overflow).',
+    not_covered=['intrinsics wrappers simd_op_t / ufunc_simd_t over _mm*/_mm256*/simde and the compiler vector extensions (x86_sse.hpp, x86_avx.hpp, vector_extension.hpp, simde_avx512/)',
+                 'bit-identical float lanes (rounding, NaN payloads, signed zeros) of packed vs scalar operations',
+                 'reduction re-association (vertical/horizontal accumulation order vs the scalar left fold) and the identity/padding value choice',
+                 'eval_binary / eval_outer / eval_reduction as loops (tag dispatch on the enumerated items, PAD lane loops, accumulator handling); eval_binary SAME_SHAPE loop '
+                 '(same text as the proved eval_unary loop, not instantiated)',
+                 'outer enumerator for operands of rank >= 2 (the switch branches "only works for 2-dim" and the generic stride branch)',
+                 'matmul evaluator and the outer matmul enumerator (only matmul_simd_inner, thorough tier)',
+                 'column-major operands, compile-time-constant shapes, N_ELEM_PACK other than 4 and 8 (2, 16: same template text)',
+                 'extents above 2^62 (the code compares `offset + N > n` with wrapping unsigned arithmetic)'],
+)
 UNITS = []
 for N in (4, 8):
     UNITS += [
-    Unit('binary_2d_shape_%d.bp' % N, 'c12', 'verif_binary_2d_shape_%d' % N, mode='bp', clause='x'),
-    Unit('binary_2d_at_%d.bp' % N, 'c12', 'verif_binary_2d_at_%d' % N, mode='bp', clause='x'),
-    Unit('binary_2d_size_%d.uf' % N, 'c12', 'verif_binary_2d_size_%d' % N, mode='uf', clause='x'),
-    Unit('lemma.row_cover_%d' % N, 'c12', None, lemma='lemma_row_cover_%d' % N, mode='bp', clause='x'),
-    Unit('reduction_h_shape_%d.bp' % N, 'c12', 'verif_reduction_h_shape_%d' % N, mode='bp', clause='x'),
-    Unit('reduction_v_shape_%d.bp' % N, 'c12', 'verif_reduction_v_shape_%d' % N, mode='bp', clause='x'),
-    Unit('reduction_h_at_%d.uf' % N, 'c12', 'verif_reduction_h_at_%d' % N, mode='uf', clause='x'),
-    Unit('reduction_v_at_%d.uf' % N, 'c12', 'verif_reduction_v_at_%d' % N, mode='uf', clause='x'),
+    Unit('binary_2d_shape_%d.bp' % N, 'c12', 'verif_binary_2d_shape_%d' % N, mode='bp',
+         clause='broadcast binary: simd grid = (out rows, C/N packed + C%%N scalar items per row), N=%d' % N),
+    Unit('binary_2d_at_%d.uf' % N, 'c12', 'verif_binary_2d_at_%d' % N, mode='uf', timeout=900,
+         clause='broadcast binary, all broadcast patterns, element counts not a multiple of the lane count: item i writes its lanes of the output row and reads the broadcast source elements, inside the buffers, N=%d' % N),
+    Unit('binary_2d_size_%d.uf' % N, 'c12', 'verif_binary_2d_size_%d' % N, mode='uf',
+         clause='broadcast binary: number of items = rows * items per row, N=%d' % N),
+    Unit('lemma.row_cover_%d' % N, 'c12', None, lemma='lemma_row_cover_%d' % N, mode='bp',
+         clause='same elements: per row the items are adjacent, start at 0, end at the row end; every column is covered by exactly one item and lane (spec inverse), N=%d' % N),
+    Unit('reduction_h_shape_%d.bp' % N, 'c12', 'verif_reduction_h_shape_%d' % N, mode='bp',
+         clause='reduction over the last axis: ceil(n/N) items per row, N=%d' % N),
+    Unit('reduction_v_shape_%d.bp' % N, 'c12', 'verif_reduction_v_shape_%d' % N, mode='bp',
+         clause='reduction over a leading axis: n/N packed + n%%N scalar items per row, N=%d' % N),
+    Unit('reduction_h_at_%d.uf' % N, 'c12', 'verif_reduction_h_at_%d' % N, mode='uf',
+         clause='reduction over the last axis: packed items + one identity-padded item ending exactly at the row end; accumulate into out[row] exactly once, at the last item, N=%d' % N),
+    Unit('reduction_v_at_%d.uf' % N, 'c12', 'verif_reduction_v_at_%d' % N, mode='uf',
+         clause='reduction over any leading axis: input row r accumulates into output row r/(Ri/Ro), packed then scalar columns, inside the buffers, N=%d' % N),
     ]
 UNITS += [
-    Unit('reduction_h_size_4.uf', 'c12', 'verif_reduction_h_size_4', mode='uf', clause='x'),
-    Unit('reduction_nd_reshape_h.uf', 'c12', 'verif_reduction_nd_reshape_h', mode='uf', unwind=10, clause='x'),
-    Unit('reduction_nd_reshape_v.uf', 'c12', 'verif_reduction_nd_reshape_v', mode='uf', unwind=10, clause='x'),
+    Unit('reduction_h_size_4.uf', 'c12', 'verif_reduction_h_size_4', mode='uf', clause='reduction: number of items = rows * items per row'),
+    Unit('reduction_nd_reshape_h.uf', 'c12', 'verif_reduction_nd_reshape_h', mode='uf', unwind=10,
+         clause='n-d reductions, last axis: regrouped as (product of the leading extents, last extent)'),
+    Unit('reduction_nd_reshape_v.uf', 'c12', 'verif_reduction_nd_reshape_v', mode='uf', unwind=10,
+         clause='n-d reductions over every other axis: regrouped as (product of extents up to the axis, product of the extents after it)'),
+    Unit('eval_unary_4.bp', 'c12e', 'verif_eval_unary_4', mode='bp', unwind=34,
+         clause='element-wise: packed loop + scalar tail give the scalar result at every element, for every element count (also not a multiple of the lane count), and write nothing else, N=4'),
+    Unit('eval_unary_8.bp', 'c12e', 'verif_eval_unary_8', mode='bp', unwind=34,
+         clause='element-wise: packed loop + scalar tail give the scalar result at every element, for every element count (also not a multiple of the lane count), and write nothing else, N=8'),
+]
+# constant-trip loops of the std::array<size_t,1|2> instantiation (len(lhs_shape) == len(rhs_shape) == 1, len(indices)-1 == 1); the generic
+# stride lambda (lambda_outer_simd_1) is only called from the `default:` branch, unreachable for rank-1 operands
+OUTER_LOOPS = {'outer_simd_shape': 3, 'lambda_outer_simd_0': 3, 'lambda_outer_simd_1': 3}
+for N in (4, 8):
+    UNITS += [
+    Unit('outer_shape_%d.bp' % N, 'c12', 'verif_outer_shape_%d' % N, mode='bp', unwind_loops=OUTER_LOOPS,
+         clause='outer: simd grid = (lhs extent, ceil(rhs extent / N)), N=%d' % N),
+    Unit('outer_at_%d.uf' % N, 'c12', 'verif_outer_at_%d' % N, mode='uf', unwind_loops=OUTER_LOOPS,
+         clause='outer: item (r, sc) broadcasts lhs[r] against rhs[sc*N ..] into out[r*B + sc*N ..], packed or padded to the row end, N=%d' % N),
+    ]
+UNITS += [
+    Unit('matmul_inner_size_4.bp', 'c12', 'verif_matmul_inner_size_4', mode='bp', tier='thorough', clause='matmul: ceil(K/N) inner steps per output element'),
+    Unit('matmul_inner_at_4.uf', 'c12', 'verif_matmul_inner_at_4', mode='uf', tier='thorough',
+         clause='matmul: inner step s of output element o reads lhs row o/cols and rhs^T row o%cols at column s*N, packed or padded to the row end'),
+]
+LEMMAS = [
+    Lemma('rows / partition arithmetic (c12_rows.lean)', 'c12_rows.lean',
+          clause='i < rows*cols <=> i/cols < rows; item <-> (row, column) round trip; row < rows and col+w <= cols ==> row*cols+col+w <= rows*cols (never outside its buffers); '
+                 'every k < s lies in exactly one packed N-block passing i+N <= s or in the tail [(s/N)*N, s)'),
 ]
